@@ -767,6 +767,7 @@ impl<'a, H: HashAlgorithm> Exec<'a, H> {
         self.disk.begin_step(i);
         let live_before = if self.scen.checks.intact && matches!(st, Step::Commit { .. } | Step::DeleteAll { .. } | Step::OvCommit { .. } | Step::Rollback { .. } | Step::CommitPrepared { .. }) {
             let img = crate::decoder::decode(&self.dir).map_err(|e| self.v("C16", "decode-failed", e))?;
+            if std::env::var("SIM_DEBUG_C17").is_ok() { eprintln!("STEP {i}: ln bump {} used {} list_pages {:?} free {} ; bbn bump {} used {} list_pages {:?}", img.meta.ln_bump, img.ln.used.len(), img.ln.list_pages, img.ln.free.len(), img.meta.bbn_bump, img.bbn.used.len(), img.bbn.list_pages); }
             Some(crate::decoder::live_set(&img))
         } else { None };
         let r = self.step_inner(i, st);
